@@ -38,7 +38,9 @@ def ident_fmt(term):
 
 
 def strip_cast(t):
-    while t[0] == 'cast':
+    """remove value-preserving casts of a u32 / usize quantity (to usize, u64, u32, u128, i64, i128); a narrowing cast (`as u8`, `as u16`, `as i32`,
+    `as f32`) stays in place, so the comparison with the expected term fails and the truncation is reported"""
+    while t[0] == 'cast' and t[2].replace(' ', '') in ('usize', 'u64', 'u32', 'u128', 'i64', 'i128'):
         t = t[1]
     return t
 
